@@ -104,14 +104,23 @@ func c07JoseDecoders(c *h.Ctx) []decoder {
 		}
 		iv, _ := jose.VerifBase64URLDecode(f["iv"])
 		aad := []byte(f["protected"])
-		mac := hmac.New(ce.hf, ce.key[:len(ce.key)/2])
-		mac.Write(aad)
-		mac.Write(iv)
-		al := make([]byte, 8)
-		binary.BigEndian.PutUint64(al, uint64(len(aad))*8)
-		mac.Write(al)
-		crafted := fmt.Sprintf(`{"protected":"%s","iv":"%s","ciphertext":"","tag":"%s"}`, f["protected"], f["iv"], jose.VerifBase64URLEncode(mac.Sum(nil)[:ce.taglen]))
-		jweTexts = append(jweTexts, []byte(crafted))
+		// ... and, more generally, ciphertexts of EVERY length behind a valid tag (whoever chooses the content key can make
+		// the tag fit anything): empty, shorter than a block, not a whole number of blocks, whole blocks of garbage
+		for _, n := range []int{0, 1, 15, 16, 17, 31, 32, 33, 48} {
+			ct := make([]byte, n)
+			for i := range ct {
+				ct[i] = byte(0x5a + i)
+			}
+			mac := hmac.New(ce.hf, ce.key[:len(ce.key)/2])
+			mac.Write(aad)
+			mac.Write(iv)
+			mac.Write(ct)
+			al := make([]byte, 8)
+			binary.BigEndian.PutUint64(al, uint64(len(aad))*8)
+			mac.Write(al)
+			crafted := fmt.Sprintf(`{"protected":"%s","iv":"%s","ciphertext":"%s","tag":"%s"}`, f["protected"], f["iv"], jose.VerifBase64URLEncode(ct), jose.VerifBase64URLEncode(mac.Sum(nil)[:ce.taglen]))
+			jweTexts = append(jweTexts, []byte(crafted))
+		}
 		decKeys = append(decKeys, ce.key)
 	}
 	var jwkTexts [][]byte
